@@ -559,7 +559,7 @@ def _convert_bool(value):
     )
 
 
-def _convert_schema_path_to_regex(schema_path):
+def _convert_schema_path_to_regex(schema_path, literal_prefix=""):
     r"""Convert a schema path to a regular expression.
 
     For example, the following path 'data\/foo\/{foo:int}' would be converted to
@@ -585,23 +585,25 @@ def _convert_schema_path_to_regex(schema_path):
         If an unsupported type is found.
 
     """
-    # First, replace escaped backslashes with double-escaped backslashes.
-    # This is needed for compatibility with Windows, which uses backslashes.
-    schema_path = re.sub(r"\\", r"\\\\", schema_path)
-
     # The regular expression below is used to identify the {value:type} specifications
     # in the schema path.
     re_key_type_field = r"\{(?P<key>[\.\w]+)(?::(?P<type>[a-z]+))?\}"
     schema_regex = ""  # the return value
     types = {}  # maps values to their designated types
     index = 0
+    # The directory the schema is relative to is plain text, whatever characters
+    # it contains (it is not part of the schema).
+    if literal_prefix and schema_path.startswith(literal_prefix):
+        schema_regex = re.escape(literal_prefix)
+        index = len(literal_prefix)
     while True:
         m = re.search(re_key_type_field, schema_path[index:])
         if m:
             key = m.groupdict()["key"].replace(".", _DOT_MAGIC_WORD)
             types[key] = m.groupdict()["type"] or "str"
             start, stop = m.span()
-            schema_regex += schema_path[index : index + start].replace(".", r"\.")
+            # Everything between the fields is plain text as well.
+            schema_regex += re.escape(schema_path[index : index + start])
             schema_regex += rf"(?P<{key}>{RE_TYPES[types[key]]})"
             index += stop
             continue
@@ -618,7 +620,7 @@ def _convert_schema_path_to_regex(schema_path):
     return schema_regex, types
 
 
-def _make_path_based_schema_function(schema_path):
+def _make_path_based_schema_function(schema_path, literal_prefix=""):
     """Generate a schema function that is based on a directory path schema.
 
     Parameters
@@ -632,7 +634,7 @@ def _make_path_based_schema_function(schema_path):
         Function that parses the schema path.
 
     """
-    schema_regex, types = _convert_schema_path_to_regex(schema_path)
+    schema_regex, types = _convert_schema_path_to_regex(schema_path, literal_prefix)
 
     def parse_path(path):
         """Parse the provided path.
@@ -860,7 +862,8 @@ def _analyze_directory_for_import(root, project, schema):
         if not schema.startswith(root):
             schema = os.path.normpath(os.path.join(root, schema))
         schema_function = _with_consistency_check(
-            _make_path_based_schema_function(schema), read_statepoint_file
+            _make_path_based_schema_function(schema, literal_prefix=root),
+            read_statepoint_file,
         )
     else:
         raise TypeError("The schema variable must be None, callable, or a string.")
